@@ -37,7 +37,7 @@ from __future__ import annotations
 import ast
 
 from ..repo import AnalysisError, FuncInfo, dotted, own_nodes
-from .common import resolve_root, source_pos, step_of
+from .common import only_called_from, resolve_root, source_pos, step_of
 
 MANIFEST = {
     "text": (
@@ -314,11 +314,16 @@ def _find_roles(ctx, base, cone):
     if init is None or nxt is None:
         raise AnalysisError("InstanceGenerator.__init__/__next__ vanished")
     limit = None
-    for n in own_nodes(init.node):
-        tgs = n.targets if isinstance(n, ast.Assign) else [n.target] if isinstance(n, ast.AnnAssign) and n.value is not None else []
-        for t in tgs:
-            if _self_attr(t) and isinstance(n.value, ast.Name) and n.value.id == "iteration_limit":
-                limit = t.attr
+    for init_v in (init, None):
+        if init_v is None:
+            if limit is not None:
+                break
+            init_v = ctx.norm.flat(init, depth=3)  # stored by a private step / a bundled state object
+        for n in own_nodes(init_v.node):
+            tgs = n.targets if isinstance(n, ast.Assign) else [n.target] if isinstance(n, ast.AnnAssign) and n.value is not None else []
+            for t in tgs:
+                if _self_attr(t) and isinstance(n.value, ast.Name) and n.value.id == "iteration_limit":
+                    limit = t.attr
     if limit is None:
         raise AnalysisError("InstanceGenerator.__init__: attribute holding iteration_limit not found")
     it = None
@@ -452,6 +457,10 @@ def _config_is_read_only(ctx, base, cone):
     for c in cone:
         for m in c.methods.values():
             if m.name == "__init__" or m.cls is not c:
+                continue
+            # a private step that only the constructors run is constructor code
+            inits = {k.methods["__init__"] for k in cone if "__init__" in k.methods}
+            if m.name.startswith("_") and inits and only_called_from(ctx, m, inits):
                 continue
             n += 1
             for w in lc.attr_writes(m, c):
